@@ -86,6 +86,8 @@ struct Mod {
     custom_payload: Vec<Vec<u8>>,
     /// per import slot: the function it imports (None: a memory import)
     import_func: Vec<Option<walrus::FunctionId>>,
+    /// per table slot: is it a funcref table
+    table_is_func: Vec<bool>,
     counter: u32,
 }
 
@@ -139,6 +141,7 @@ impl Mod {
             custom_raw: Vec::new(),
             custom_payload: Vec::new(),
             import_func: Vec::new(),
+            table_is_func: Vec::new(),
             counter: 0,
         }
     }
@@ -466,6 +469,7 @@ fn add_op(md: &mut Mod, coll: CollKind, arg: u32, counters: &mut Vec<(String, u6
             if let Err(e) = md.tables.add(id, format!("{}", k)) {
                 return fail("id_never_reused", format!("tables: {}", e));
             }
+            md.table_is_func.push(arg % 2 == 0);
         }
         CollKind::Data => {
             let name = format!("da{}", k);
@@ -732,6 +736,35 @@ fn find_op(md: &mut Mod, coll: CollKind, arg: u32, counters: &mut Vec<(String, u
                 }
             }
             bump(counters, "find_func:imports");
+        }
+        CollKind::Tables => {
+            // "the one function table": Ok(None) without a live funcref table, Ok(Some) with exactly one, Err with more
+            let live_func: Vec<usize> = (0..md.tables.ids.len()).filter(|j| md.tables.alive[*j] && md.table_is_func[*j]).collect();
+            let got = md.m.tables.main_function_table();
+            let ok = match (&got, live_func.len()) {
+                (Ok(None), 0) => true,
+                (Ok(Some(id)), 1) => *id == md.tables.ids[live_func[0]],
+                (Err(_), n) if n >= 2 => true,
+                _ => false,
+            };
+            if !ok {
+                return fail("finder_agrees_with_model", format!("tables.main_function_table() = {:?}, the model has {} live funcref table(s)", got.map(|o| o.map(|i| i.index())).map_err(|e| e.to_string()), live_func.len()));
+            }
+            bump(counters, "find_main_function_table");
+        }
+        CollKind::Memories => {
+            // "the only memory": Err with more than one live memory or none, else that memory
+            let live: Vec<usize> = (0..md.memories.ids.len()).filter(|j| md.memories.alive[*j]).collect();
+            let got = md.m.get_memory_id();
+            let ok = match (&got, live.len()) {
+                (Ok(id), 1) => *id == md.memories.ids[live[0]],
+                (Err(_), n) if n != 1 => true,
+                _ => false,
+            };
+            if !ok {
+                return fail("finder_agrees_with_model", format!("Module::get_memory_id() = {:?}, the model has {} live memories", got.map(|i| i.index()).map_err(|e| e.to_string()), live.len()));
+            }
+            bump(counters, "find_only_memory");
         }
         CollKind::Customs => {
             if md.customs.fp.is_empty() {
